@@ -12,7 +12,7 @@ from ..oracle import run, totality
 ID = "C03"
 ENGINE = "E-CHR + E-TOK(xsh) + char-E-EDIT + E-LINE, outcome-class monitor with parent-side watchdog"
 RULE = (
-    "every string over the 18-character 'nasty' alphabet up to the length bound (bare and inside f-string, "
+    "every string over the 20-character 'nasty' alphabet (incl. NBSP and VT: whitespace to str.isspace() but not to the tokenizer) up to the length bound (bare and inside f-string, "
     "subprocess, call-macro and with-macro carriers), every xonsh/python lexeme sequence of the E-TOK trees, every filling of nine xonsh carriers (help chains, env targets, subprocess words, macro arguments, with-macro headers), every "
     "character-level prefix/deletion/insertion of the corpus, the E-LINE breadth-first search over tokenizer line states, and size families (a run of 30 / 60 / 200 copies of each of 24 fillers inside each of 22 lexical contexts); each is tokenized to exhaustion and parsed in exec "
     "and eval mode (short ones also through parse_file). Non-trivial = the text is non-empty and reached the parser "
